@@ -60,6 +60,12 @@ def generate(files: dict, main: list, *, options: dict | None = None, config_mut
     from xsdata.models.config import GeneratorConfig, StructureStyle
 
     _quiet()
+    # xsdata memoises package_path()/module_path() although they depend on the current working directory; every
+    # generation here runs in a directory of its own, so the memo of an earlier generation must not leak into this one
+    from xsdata.utils import package as _package
+
+    _package.package_path.cache_clear()
+    _package.module_path.cache_clear()
     _N[0] += 1
     pkg = pkg or f"xvg{os.getpid()}_{_N[0]}"
     work = tempfile.mkdtemp(prefix="xv-gen-")
